@@ -312,6 +312,16 @@ func (p *Plugin) PassEvent(event *pipeline.Event) bool {
 
 	job.mu.Lock()
 	savedOffset, exist := job.offsets.Get(pipeline.StreamName(event.StreamNameBytes()))
+	if !exist {
+		// first line of a stream which has never been committed: remember where it starts,
+		// so the offsets file names the stream and a restart doesn't resume beyond this line
+		// (reading resumes from the minimum of the saved stream offsets)
+		start := event.Offset - int64(event.Size)
+		if start < 0 {
+			start = 0
+		}
+		job.offsets.Set(pipeline.StreamName(string(event.StreamNameBytes())), start)
+	}
 	job.mu.Unlock()
 
 	if !exist {
